@@ -50,6 +50,8 @@ class Exec(StmtMixin):
         c = self.contract
         t0 = time.time()
         O.STRLIT_MODE[0] = c.strings
+        from . import exec_core as _EC
+        _EC._qcache.clear()      # keyed by z3 ast ids, which are only stable while the terms are alive
         fn, info = F.find_function(c.file, c.qualname)
         self.info = info
         self.check_signature(fn, info)
